@@ -85,3 +85,42 @@ func TestProbe(t *testing.T) {
 	out, err := runProgram(seq.Zctx, seq.Vals, prog, o)
 	show("direct", out, err)
 }
+
+// TestMakeReplay is a development aid that writes a TestGroupBy replay file
+// from a literal description:
+// C10_MKREPLAY='<file>|<sig>|<keys: k,j or kk:=k>|<aggs: name:func:arg:where;...>|<sort_on>|<batch>|<rows zson>'
+func TestMakeReplay(t *testing.T) {
+	spec := os.Getenv("C10_MKREPLAY")
+	if spec == "" {
+		t.Skip("C10_MKREPLAY not set")
+	}
+	p := strings.SplitN(spec, "|", 7)
+	c := GBCase{Rows: gen.SeqFromZSON(p[6]), LimitVia: "flag", NShards: 1, ShardLimit: 1, SortLimit: 1}
+	if p[2] != "" {
+		for _, k := range strings.Split(p[2], ",") {
+			name, e, ok := strings.Cut(k, ":=")
+			if !ok {
+				e = name
+			}
+			c.Keys = append(c.Keys, KeySpec{Name: name, Expr: e})
+		}
+	}
+	for _, a := range strings.Split(p[3], ";") {
+		f := strings.SplitN(a, ":", 4)
+		c.Aggs = append(c.Aggs, AggSpec{Name: f[0], Func: f[1], Arg: f[2], Where: f[3]})
+	}
+	c.SortOn, _ = strconv.Atoi(p[4])
+	c.Batch, _ = strconv.Atoi(p[5])
+	n := len(c.Rows.Vals)
+	c.Perm = identity(n)
+	c.Shards = make([]int, n)
+	raw, err := json.Marshal(c)
+	if err != nil {
+		t.Fatal(err)
+	}
+	rf := map[string]any{"test": "TestGroupBy", "sig": p[1], "expect": "known", "case": json.RawMessage(raw)}
+	b, _ := json.MarshalIndent(rf, "", " ")
+	if err := os.WriteFile(p[0], append(b, '\n'), 0o644); err != nil {
+		t.Fatal(err)
+	}
+}
